@@ -50,29 +50,35 @@ func TestTail(t *testing.T) {
 		bt, w, tp, sfh := mbt.Int(in, "bt"), mbt.Int(in, "w"), mbt.Int(in, "tp"), mbt.Int(in, "sfh")
 		tail, shead, nhead := mbt.Int(in, "tail"), mbt.Int(in, "shead"), mbt.Int(in, "nhead")
 		times := mbt.Ints(c["times"])
+		// replay-only variant: the same row on a finer time scale (a tick of 1.5 s or 0.5 s instead of one hour: block times
+		// that are not whole seconds); every duration of the scenario scales with it
+		tk := tick
+		if ms := mbt.Int(in, "tickMs"); ms > 0 {
+			tk = time.Duration(ms) * time.Millisecond
+		}
 		rec := TailRec{Tr: id, In: in, Obs: TailObs{Lost: []int{}, Orphans: []int{}}}
 		synctest.Test(t, func(t *testing.T) {
 			bg := context.Background()
 			now := time.Now()
-			base := now.Add(-time.Minute).Add(-time.Duration(times[nhead-1]) * tick)
+			base := now.Add(-tk / 60).Add(-time.Duration(times[nhead-1]) * tk)
 			ts := make([]int64, len(times))
 			for i, x := range times {
-				ts[i] = base.Add(time.Duration(x) * tick).UnixNano()
+				ts[i] = base.Add(time.Duration(x) * tk).UnixNano()
 			}
 			full := vh.NewChainTimes("c", 1, ts)
 			// the network (getter) knows the chain up to nhead
 			netChain := vh.NewChainTimes("c", 1, ts[:nhead])
-			opts := []hsync.Option{hsync.WithBlockTime(time.Duration(bt) * tick), hsync.WithPruningWindow(time.Duration(w) * tick),
+			opts := []hsync.Option{hsync.WithBlockTime(time.Duration(bt) * tk), hsync.WithPruningWindow(time.Duration(w) * tk),
 				hsync.WithRecencyThreshold(time.Nanosecond)}
 			if tail == 0 {
-				opts = append(opts, hsync.WithTrustingPeriod(time.Duration(tp)*tick))
+				opts = append(opts, hsync.WithTrustingPeriod(time.Duration(tp)*tk))
 			} else {
 				// a running store: the stored head must not be expired (that would be a re-initialisation).  Replay-only
 				// variant tpSmall: the shortest trusting period that still covers the stored head, when that is shorter
 				// than the pruning window — the pruning window is what bounds the stored history, not the trusting period
-				trusting := 100000 * tick
+				trusting := 100000 * tk
 				if ageHead := times[nhead-1] - times[shead-1]; mbt.Bool(in, "tpSmall") && ageHead+1 < w {
-					trusting = time.Duration(ageHead+1)*tick + 2*time.Minute
+					trusting = time.Duration(ageHead+1)*tk + tk/30
 				}
 				opts = append(opts, hsync.WithTrustingPeriod(trusting))
 			}
@@ -179,7 +185,7 @@ func TestTail(t *testing.T) {
 			default:
 				start()
 			}
-			time.Sleep(30 * time.Minute) // virtual: lets the sync loop (if any) finish
+			time.Sleep(tk / 2) // virtual: lets the sync loop (if any) finish
 			synctest.Wait()
 			if rec.Obs.Kind == "" {
 				rec.Obs.Kind = "ok"
@@ -247,7 +253,7 @@ func TestTail(t *testing.T) {
 					cancel()
 				}
 				kh := netChain.At(uint64(shead)).Clone()
-				kh.T = netChain.Head().T + int64(30*time.Second)
+				kh.T = netChain.Head().T + int64(tk/120)
 				func() {
 					defer func() {
 						if r := recover(); r != nil {
@@ -262,7 +268,7 @@ func TestTail(t *testing.T) {
 						rec.Obs.KnownRes = "err"
 					}
 				}()
-				time.Sleep(time.Minute)
+				time.Sleep(tk / 60)
 				synctest.Wait()
 				if tl, err := n.st.Tail(bg); err == nil {
 					rec.Obs.KnownTail = int(tl.Height())
@@ -276,7 +282,7 @@ func TestTail(t *testing.T) {
 				}
 			}
 			n.stop()
-			time.Sleep(time.Minute)
+			time.Sleep(tk / 60)
 			synctest.Wait()
 		})
 		tw.Put(rec)
